@@ -1,6 +1,11 @@
 HOOK_COMMITS = ["df48cf5"]
 NOT_APPLICABLE = {}
 TEXTS = {
+ "C03": {
+  "technique": "stateful property-based testing (rapid): generated session/transaction histories with fault injection; visibility and read-your-writes checked against shadow engines, snapshot immutability by byte-level re-dumps",
+  "level_text": "Generated histories over two sessions and a plain client with commit / abort / end / failing-store / panicking-callback decisions and snapshot-taking steps; the visible state, the in-transaction results and the post-commit state are compared with shadow engines seeded from the committed state, and every held snapshot is re-dumped after every step. Sampling, not proof.",
+  "level_note": "One call at a time (the property's quantifier); the shadow engines use lungo's sequential behaviour, which C01 checks against the reference model.",
+ },
  "C18": {
   "technique": "property-based testing (rapid): generated content x chunk size x buffer size x write partition x upload lifecycle x read/seek script, model = the byte string and bytes.Reader",
   "level_text": "Generated search with a model oracle: the uploaded byte string and an in-memory reader. Chunk layout, file record, full download, every read/seek/skip step, suspend/resume offsets and the absence of leftovers after abort/delete/cleanup are compared exactly. The 16 MiB buffer arithmetic is reached by shrinking the buffer through a build-tag guarded hook. Sampling, not proof.",
